@@ -75,6 +75,20 @@ pub fn malformations() -> Vec<Malformation> {
     add("check-ai:empty-condition", "check-ai=\"  \"".to_string(), two, false);
     add("check-ai-pattern:bad-regex", "check-ai=\"fine\" check-ai-pattern=\"(\"".to_string(), two, false);
     add("check-ai:missing-key", "check-ai=\"must be fine\"".to_string(), two, false);
+    add("check-ai:missing-key", "check-ai=\"must be fine\" check-ai-pattern=\"nomatch\\d\"".to_string(), two, false);
+    drop(add);
+    // The same malformations on a block without content (empty, blank-only), for the rule kinds
+    // whose clause in the property has no "with content" qualifier.
+    let no_content_ok = ["keep-sorted:unknown-direction", "keep-sorted-format:unknown", "line-count:bad-expression", "check-lua:", "check-ai:"];
+    let mut extra = Vec::new();
+    for m in &v {
+        if no_content_ok.iter().any(|k| m.kind.starts_with(k)) && !m.attrs.contains("pattern") {
+            for content in [&[][..], &["", "   "][..]] {
+                extra.push(Malformation { kind: m.kind, attrs: m.attrs.clone(), content, diff: m.diff });
+            }
+        }
+    }
+    v.extend(extra);
     v
 }
 
